@@ -516,7 +516,7 @@ func (s *v6sys) Fingerprint() string {
 	}
 	sort.Strings(dl)
 	fmt.Fprintf(&sb, "|declined=%v", dl)
-	return sb.String()
+	return digest(sb.String())
 }
 
 // Check: monitors, then the O6 probe (fresh clients SOLICIT+REQUEST until nothing is handed out).
